@@ -210,62 +210,45 @@ Definition method_ok (o : op) (m : method_ir) : bool :=
     body_eqb (mi_body m) (notify_body (mi_param m)) &&
     match mi_final m with FRetErrs => true | _ => false end.
 
-Definition canonical_ops : list (string * string) := map (fun o => (op_const o, op_value o)) all_ops.
-Definition canonical_fields : list string := map op_field all_ops.
-Definition canonical_reg : list reg_entry := map (fun o => REntry (op_const o) (op_field o)) all_ops.
+(* the checker.  Order of the constants, of Manager's fields and of the statements of Register is
+   irrelevant; what matters: every Op constant has its documented value, every per-operation list
+   exists, Register has exactly one statement per list and that statement tests the operation the
+   list belongs to, and every operation has a method of the expected shape. *)
+Definition ops_ok (ops : list (string * string)) : bool :=
+  forallb (fun o => match str_assoc (op_const o) ops with
+                    | Some v => String.eqb v (op_value o)
+                    | None => false
+                    end) all_ops.
 
-Fixpoint strs_eqb (a b : list string) : bool :=
-  match a, b with
-  | [], [] => true
-  | x :: a', y :: b' => String.eqb x y && strs_eqb a' b'
-  | _, _ => false
-  end.
-Fixpoint pairs_eqb (a b : list (string * string)) : bool :=
-  match a, b with
-  | [], [] => true
-  | (x, x2) :: a', (y, y2) :: b' => String.eqb x y && String.eqb x2 y2 && pairs_eqb a' b'
-  | _, _ => false
-  end.
-Definition reg_entry_eqb (a b : reg_entry) : bool :=
-  match a, b with
-  | REntry x y, REntry x' y' => String.eqb x x' && String.eqb y y'
-  | _, _ => false
-  end.
-Fixpoint reg_eqb (a b : list reg_entry) : bool :=
-  match a, b with
-  | [], [] => true
-  | x :: a', y :: b' => reg_entry_eqb x y && reg_eqb a' b'
-  | _, _ => false
+Definition fields_ok (fields : list string) : bool :=
+  forallb (fun o => existsb (String.eqb (op_field o)) fields) all_ops.
+
+Definition entry_field (e : reg_entry) : string :=
+  match e with REntry _ f => f | RUnknown _ => ""%string end.
+
+Definition entry_valid (e : reg_entry) : bool :=
+  match e with
+  | REntry c f => existsb (fun o => String.eqb c (op_const o) && String.eqb f (op_field o)) all_ops
+  | RUnknown _ => false
   end.
 
-Lemma strs_eqb_eq a : forall b, strs_eqb a b = true -> a = b.
-Proof.
-  induction a as [|x a IH]; intros [|y b]; cbn; try discriminate; [reflexivity|].
-  intros H. apply andb_true_iff in H. destruct H as [H1 H2]. apply String.eqb_eq in H1. apply IH in H2. congruence.
-Qed.
-Lemma pairs_eqb_eq a : forall b, pairs_eqb a b = true -> a = b.
-Proof.
-  induction a as [|[x x2] a IH]; intros [|[y y2] b]; cbn; try discriminate; [reflexivity|].
-  intros H. apply andb_true_iff in H. destruct H as [H1 H2]. apply andb_true_iff in H1. destruct H1 as [H0 H1].
-  apply String.eqb_eq in H0, H1. apply IH in H2. congruence.
-Qed.
-Lemma reg_eqb_eq a : forall b, reg_eqb a b = true -> a = b.
-Proof.
-  induction a as [|x a IH]; intros [|y b]; cbn; try discriminate; [reflexivity|].
-  intros H. apply andb_true_iff in H. destruct H as [H1 H2]. apply IH in H2.
-  destruct x, y; cbn in H1; try discriminate. apply andb_true_iff in H1. destruct H1 as [H0 H1].
-  apply String.eqb_eq in H0, H1. congruence.
-Qed.
+Definition reg_ok (reg : list reg_entry) : bool :=
+  forallb entry_valid reg &&
+  forallb (fun o => Nat.eqb (length (filter (fun e => String.eqb (entry_field e) (op_field o)) reg)) 1) all_ops.
 
-(* the checker: constants, Manager fields and Register are the documented ones; every
-   operation has a method of the expected shape *)
 Definition table_ok (ops : list (string * string)) (fields : list string) (reg : list reg_entry)
            (ms : list method_ir) : bool :=
-  pairs_eqb ops canonical_ops && strs_eqb fields canonical_fields && reg_eqb reg canonical_reg &&
+  ops_ok ops && fields_ok fields && reg_ok reg &&
   forallb (fun o => match find_method (op_method o) ms with
                     | Some m => method_ok o m
                     | None => false
                     end) all_ops.
+
+Lemma in_all_ops o : In o all_ops.
+Proof. destruct o; cbn; tauto. Qed.
+
+Lemma op_field_inj o o' : op_field o = op_field o' -> o = o'.
+Proof. destruct o, o'; cbn; intros H; try reflexivity; discriminate. Qed.
 
 (** ** Register files every plugin into exactly the lists of the operations it supports *)
 
@@ -274,37 +257,147 @@ Lemma registered_for_cons o p ps :
   if supports p (op_value o) then fst p :: registered_for o ps else registered_for o ps.
 Proof. unfold registered_for. cbn [filter]. destruct (supports p (op_value o)); reflexivity. Qed.
 
-Definition mgr6 (l1 l2 l3 l4 l5 l6 : list Z) : mgr :=
-  [("loginPlugins"%string, l1); ("newProxyPlugins"%string, l2); ("closeProxyPlugins"%string, l3);
-   ("pingPlugins"%string, l4); ("newWorkConnPlugins"%string, l5); ("newUserConnPlugins"%string, l6)].
-
-Lemma reg_all_canonical ps : forall l1 l2 l3 l4 l5 l6,
-  reg_all canonical_ops canonical_reg ps (mgr6 l1 l2 l3 l4 l5 l6) =
-  Some (mgr6 (l1 ++ registered_for OLogin ps) (l2 ++ registered_for ONewProxy ps)
-             (l3 ++ registered_for OCloseProxy ps) (l4 ++ registered_for OPing ps)
-             (l5 ++ registered_for ONewWorkConn ps) (l6 ++ registered_for ONewUserConn ps)).
+Lemma mgr_append_get M : forall f x,
+  mgr_get M f <> None ->
+  exists M', mgr_append M f x = Some M' /\
+             forall g, mgr_get M' g = if String.eqb g f then option_map (fun l => l ++ [x]) (mgr_get M g)
+                                      else mgr_get M g.
 Proof.
-  induction ps as [|p ps IH]; intros l1 l2 l3 l4 l5 l6.
-  - cbn [reg_all registered_for filter map]. now rewrite !app_nil_r.
-  - cbn [reg_all]. rewrite !registered_for_cons. cbn [op_value].
-    unfold canonical_reg, canonical_ops, all_ops. cbn [map op_const op_value op_field append reg_run str_assoc String.eqb Ascii.eqb Bool.eqb].
-    destruct (supports p "Login"), (supports p "NewProxy"), (supports p "CloseProxy"),
-      (supports p "Ping"), (supports p "NewWorkConn"), (supports p "NewUserConn");
-      cbn [mgr6 mgr_append String.eqb Ascii.eqb Bool.eqb];
-      fold (mgr6 (l1 ++ [fst p]) l2 l3 l4 l5 l6);
-      match goal with
-      | |- reg_all _ _ _ ?M = _ =>
-          let M' := eval cbv [mgr6] in M in idtac
-      end;
-      unfold mgr6 in IH |- *;
-      (etransitivity; [apply IH|]); rewrite <- ?app_assoc; reflexivity.
+  induction M as [|[k v] r IH]; intros f x Hf; cbn in *; [congruence|].
+  destruct (String.eqb_spec f k) as [->|Hne].
+  - eexists. split; [reflexivity|]. intros g. cbn. destruct (String.eqb_spec g k) as [->|]; reflexivity.
+  - destruct (IH f x Hf) as [M' [E HM']]. rewrite E. eexists. split; [reflexivity|].
+    intros g. cbn. destruct (String.eqb_spec g k) as [->|].
+    + destruct (String.eqb_spec k f); [congruence|reflexivity].
+    + apply HM'.
 Qed.
+
+Section Reg.
+  Variable ops : list (string * string).
+  Hypothesis Hops : forall o, str_assoc (op_const o) ops = Some (op_value o).
+
+  (* what one plugin adds to list g *)
+  Definition adds (p : plugin) (reg : list reg_entry) (g : string) : list Z :=
+    flat_map (fun e => match e with
+                       | REntry c f =>
+                           match str_assoc c ops with
+                           | Some v => if String.eqb f g && supports p v then [fst p] else []
+                           | None => []
+                           end
+                       | RUnknown _ => []
+                       end) reg.
+
+  Definition present (M : mgr) : Prop := forall o, mgr_get M (op_field o) <> None.
+
+  Lemma entry_valid_inv e : entry_valid e = true -> exists o, e = REntry (op_const o) (op_field o).
+  Proof.
+    destruct e as [c f|]; cbn [entry_valid]; [|discriminate]. intros H. apply existsb_exists in H.
+    destruct H as [o [_ H]]. apply andb_true_iff in H. destruct H as [H1 H2].
+    apply String.eqb_eq in H1, H2. subst. eauto.
+  Qed.
+
+  Lemma reg_run_get p reg : forall M,
+    forallb entry_valid reg = true -> present M ->
+    exists M', reg_run ops reg p M = Some M' /\ present M' /\
+               forall g, mgr_get M' g = option_map (fun l => l ++ adds p reg g) (mgr_get M g).
+  Proof.
+    induction reg as [|e reg IH]; intros M Hv HM.
+    - exists M. split; [reflexivity|]. split; [assumption|]. intros g. cbn.
+      destruct (mgr_get M g); cbn; [now rewrite app_nil_r|reflexivity].
+    - cbn [forallb] in Hv. apply andb_true_iff in Hv. destruct Hv as [He Hv].
+      destruct (entry_valid_inv e He) as [o ->]. cbn [reg_run]. rewrite Hops.
+      destruct (supports p (op_value o)) eqn:Es.
+      + destruct (mgr_append_get M (op_field o) (fst p) (HM o)) as [M1 [E1 H1]]. rewrite E1.
+        assert (HM1 : present M1).
+        { intros o'. rewrite H1. destruct (String.eqb (op_field o') (op_field o)); [|apply HM].
+          specialize (HM o'). destruct (mgr_get M (op_field o')); [discriminate|congruence]. }
+        destruct (IH M1 Hv HM1) as [M' [E' [HP' H']]]. exists M'. split; [exact E'|]. split; [exact HP'|].
+        intros g. rewrite H', H1. unfold adds at 2. cbn [flat_map]. rewrite Hops, Es, andb_true_r.
+        rewrite (String.eqb_sym (op_field o) g).
+        destruct (String.eqb g (op_field o)); destruct (mgr_get M g); cbn; try reflexivity.
+        now rewrite <- app_assoc.
+      + destruct (IH M Hv HM) as [M' [E' [HP' H']]]. exists M'. split; [exact E'|]. split; [exact HP'|].
+        intros g. rewrite H'. unfold adds at 2. cbn [flat_map]. rewrite Hops, Es, andb_false_r. reflexivity.
+  Qed.
+
+  Lemma reg_all_get reg ps : forall M,
+    forallb entry_valid reg = true -> present M ->
+    exists M', reg_all ops reg ps M = Some M' /\
+               forall g, mgr_get M' g = option_map (fun l => l ++ flat_map (fun p => adds p reg g) ps) (mgr_get M g).
+  Proof.
+    induction ps as [|p ps IH]; intros M Hv HM.
+    - exists M. split; [reflexivity|]. intros g. cbn. destruct (mgr_get M g); cbn; [now rewrite app_nil_r|reflexivity].
+    - cbn [reg_all]. destruct (reg_run_get p reg M Hv HM) as [M1 [E1 [HP1 H1]]]. rewrite E1.
+      destruct (IH M1 Hv HP1) as [M' [E' H']]. exists M'. split; [exact E'|].
+      intros g. rewrite H', H1. cbn [flat_map]. destruct (mgr_get M g); cbn; [now rewrite <- app_assoc|reflexivity].
+  Qed.
+
+  Lemma flat_map_if {A B} (P : A -> bool) (X : list B) (l : list A) :
+    flat_map (fun a => if P a then X else []) l = List.concat (repeat X (length (filter P l))).
+  Proof.
+    induction l as [|a l IH]; [reflexivity|]. cbn [flat_map filter].
+    destruct (P a); cbn [length repeat List.concat app]; rewrite IH; reflexivity.
+  Qed.
+
+  Lemma adds_count p reg o :
+    forallb entry_valid reg = true ->
+    adds p reg (op_field o) =
+    List.concat (repeat (if supports p (op_value o) then [fst p] else [])
+                   (length (filter (fun e => String.eqb (entry_field e) (op_field o)) reg))).
+  Proof.
+    induction reg as [|e reg IH]; intros Hv; [reflexivity|].
+    cbn [forallb] in Hv. apply andb_true_iff in Hv. destruct Hv as [He Hv].
+    destruct (entry_valid_inv e He) as [o' ->].
+    unfold adds. cbn [flat_map filter entry_field]. fold (adds p reg (op_field o)). rewrite Hops.
+    destruct (String.eqb_spec (op_field o') (op_field o)) as [E|E].
+    - apply op_field_inj in E. subst o'. cbn [andb length repeat List.concat]. rewrite (IH Hv). reflexivity.
+    - cbn [andb app]. apply IH. exact Hv.
+  Qed.
+
+  Lemma adds_unique p reg o :
+    forallb entry_valid reg = true ->
+    length (filter (fun e => String.eqb (entry_field e) (op_field o)) reg) = 1%nat ->
+    adds p reg (op_field o) = if supports p (op_value o) then [fst p] else [].
+  Proof. intros Hv Hc. rewrite (adds_count p reg o Hv), Hc. cbn. now rewrite app_nil_r. Qed.
+
+  Lemma registered_flat_map o ps :
+    flat_map (fun p : plugin => if supports p (op_value o) then [fst p] else []) ps = registered_for o ps.
+  Proof.
+    induction ps as [|p ps IH]; [reflexivity|]. rewrite registered_for_cons. cbn [flat_map]. rewrite IH.
+    destruct (supports p (op_value o)); reflexivity.
+  Qed.
+
+  Lemma mgr_new_get fields f : existsb (String.eqb f) fields = true -> mgr_get (mgr_new fields) f = Some [].
+  Proof.
+    unfold mgr_new. induction fields as [|k r IH]; cbn; [discriminate|].
+    destruct (String.eqb f k); cbn; [reflexivity|exact IH].
+  Qed.
+
+  (* the Manager after NewManager and Register of every plugin: each per-operation list holds
+     exactly the plugins that support the operation, in registration order *)
+  Lemma registered_lists fields reg ps :
+    fields_ok fields = true -> reg_ok reg = true ->
+    exists M, reg_all ops reg ps (mgr_new fields) = Some M /\
+              forall o, mgr_get M (op_field o) = Some (registered_for o ps).
+  Proof.
+    intros Hf Hr. unfold reg_ok in Hr. apply andb_true_iff in Hr. destruct Hr as [Hv Hc].
+    unfold fields_ok in Hf. rewrite forallb_forall in Hf, Hc.
+    assert (HP : present (mgr_new fields)).
+    { intros o. rewrite (mgr_new_get fields _ (Hf o (in_all_ops o))). discriminate. }
+    destruct (reg_all_get reg ps (mgr_new fields) Hv HP) as [M [E H]]. exists M. split; [exact E|].
+    intros o. rewrite H, (mgr_new_get fields _ (Hf o (in_all_ops o))). cbn [option_map app]. f_equal.
+    rewrite <- registered_flat_map. apply flat_map_ext. intros p.
+    apply adds_unique; [exact Hv|]. apply Nat.eqb_eq. apply (Hc o (in_all_ops o)).
+  Qed.
+End Reg.
 
 (** ** One loop of the canonical shape is the chain *)
 
 Definition tag (o : op) (ic : Z * content) : consult := (fst ic, op_value o, snd ic).
 
 Section Loop.
+  Variable ops : list (string * string).
+  Hypothesis Hops : forall o, str_assoc (op_const o) ops = Some (op_value o).
   Variable o : op.
   Variable script : Z -> hret.
   Variable m : method_ir.
@@ -313,11 +406,8 @@ Section Loop.
   Hypothesis Hbody : mi_body m = canonical_body o p (mi_param_ty m).
   Hypothesis Hfinal : mi_final m = FRetVar p.
 
-  Lemma ops_const : str_assoc (op_const o) canonical_ops = Some (op_value o).
-  Proof. destruct o; reflexivity. Qed.
-
   Lemma exec_body_canonical s pid :
-    exec_body canonical_ops p pid script (canonical_body o p (mi_param_ty m)) s =
+    exec_body ops p pid script (canonical_body o p (mi_param_ty m)) s =
     let seen' := ls_seen s ++ [(pid, op_value o, ls_cur s)] in
     match script pid with
     | HErr _ => SReturn RError seen'
@@ -332,7 +422,7 @@ Section Loop.
     end.
   Proof.
     unfold canonical_body. cbn [exec_body]. unfold exec_instr at 1.
-    rewrite String.eqb_refl, ops_const.
+    rewrite String.eqb_refl, Hops.
     destruct (script pid) as [k|r] eqn:Esc; cbn -[String.eqb]; rewrite ?Esc; cbn -[String.eqb]; [reflexivity|].
     destruct (h_reject r); cbn -[String.eqb]; rewrite ?Esc; cbn -[String.eqb]; [reflexivity|].
     destruct (h_unchange r); cbn -[String.eqb]; rewrite ?Esc; [reflexivity|].
@@ -340,7 +430,7 @@ Section Loop.
   Qed.
 
   Lemma exec_loop_chain ids : forall s,
-    exec_loop canonical_ops m script ids s =
+    exec_loop ops m script ids s =
     let (r, seen) := run_chain (map (fun i => classify (script i)) ids) (ls_cur s) in
     (r, ls_seen s ++ map (tag o) (combine ids seen)).
   Proof.
@@ -365,6 +455,8 @@ Section Loop.
 End Loop.
 
 Section Notify.
+  Variable ops : list (string * string).
+  Hypothesis Hops : forall o, str_assoc (op_const o) ops = Some (op_value o).
   Variable script : Z -> hret.
   Variable m : method_ir.
   Let p := mi_param m.
@@ -374,16 +466,15 @@ Section Notify.
   Definition is_herr (h : hret) : bool := match h with HErr _ => true | HRes _ => false end.
 
   Lemma exec_loop_notify ids : forall s,
-    exec_loop canonical_ops m script ids s =
+    exec_loop ops m script ids s =
     (if ls_errs s || existsb is_herr (map script ids) then RError else ROk (ls_cur s),
      ls_seen s ++ map (tag OCloseProxy) (combine ids (map (fun _ => ls_cur s) (map script ids)))).
   Proof.
     induction ids as [|pid ids IH]; intros s.
     - cbn [exec_loop map existsb combine]. rewrite Hfinal. cbn [exec_final]. rewrite orb_false_r, app_nil_r. reflexivity.
     - cbn [exec_loop map]. rewrite Hbody. fold p. unfold notify_body.
-      cbn [exec_body exec_instr]. rewrite String.eqb_refl.
-      cbn [op_const op_value append str_assoc canonical_ops all_ops map String.eqb Ascii.eqb Bool.eqb].
-      cbn [ls_last ls_cur ls_errs ls_seen existsb combine tag fst snd].
+      cbn [exec_body exec_instr]. rewrite String.eqb_refl, (Hops OCloseProxy).
+      cbn [op_value ls_last ls_cur ls_errs ls_seen existsb combine tag fst snd map].
       destruct (script pid) as [k|r]; cbn [is_herr]; rewrite IH; cbn [ls_last ls_cur ls_errs ls_seen];
         rewrite <- app_assoc; cbn [app]; rewrite ?orb_true_r, ?orb_false_r; try reflexivity.
   Qed.
@@ -397,43 +488,32 @@ Proof.
   intros H. apply andb_true_iff in H. destruct H as [H1 H2]. apply String.eqb_eq in H1, H2. subst. auto.
 Qed.
 
-Lemma mgr6_get o l1 l2 l3 l4 l5 l6 :
-  mgr_get (mgr6 l1 l2 l3 l4 l5 l6) (op_field o) =
-  Some match o with
-       | OLogin => l1 | ONewProxy => l2 | OCloseProxy => l3 | OPing => l4
-       | ONewWorkConn => l5 | ONewUserConn => l6
-       end.
-Proof. destruct o; reflexivity. Qed.
+Lemma ops_ok_sound ops : ops_ok ops = true -> forall o, str_assoc (op_const o) ops = Some (op_value o).
+Proof.
+  unfold ops_ok. intros H o. rewrite forallb_forall in H. specialize (H o (in_all_ops o)).
+  destruct (str_assoc (op_const o) ops); [|discriminate]. apply String.eqb_eq in H. congruence.
+Qed.
 
 Theorem table_ok_sound ops fields reg ms :
   table_ok ops fields reg ms = true ->
   forall o ps script c, ir_sem ops fields reg ms o ps script c = spec_sem o ps script c.
 Proof.
   unfold table_ok. rewrite !andb_true_iff. intros [[[H1 H2] H3] H4] o ps script c.
-  apply pairs_eqb_eq in H1. apply strs_eqb_eq in H2. apply reg_eqb_eq in H3. subst ops fields reg.
-  rewrite forallb_forall in H4.
-  assert (Hin : In o all_ops) by (destruct o; cbn; tauto).
-  specialize (H4 o Hin). unfold ir_sem.
+  pose proof (ops_ok_sound ops H1) as Hops.
+  rewrite forallb_forall in H4. specialize (H4 o (in_all_ops o)). unfold ir_sem.
   destruct (find_method (op_method o) ms) as [m|] eqn:Ef; [|discriminate].
-  change (mgr_new canonical_fields) with (mgr6 [] [] [] [] [] []).
-  rewrite reg_all_canonical. cbn [app].
+  destruct (registered_lists ops Hops fields reg ps H2 H3) as [M [EM HM]]. rewrite EM.
   unfold method_ok in H4. rewrite !andb_true_iff in H4. destruct H4 as [[[Hn Hl] Hx] H4].
   apply String.eqb_eq in Hl.
   unfold ir_run. destruct (mi_extra m); [|discriminate]. cbn [is_nil negb].
-  rewrite Hl, mgr6_get. unfold spec_sem.
+  rewrite Hl, HM. unfold spec_sem.
   destruct (is_gating o) eqn:Eg.
   - rewrite !andb_true_iff in H4. destruct H4 as [[Hg Hb] Hf].
     apply body_eqb_eq in Hb.
     destruct (mi_final m) as [v| |w] eqn:Efin; try discriminate. apply String.eqb_eq in Hf. subst v.
-    destruct (guard_ok_cases _ _ _ Hg) as [-> | ->]; rewrite ?mgr6_get;
-      set (ids := match o with
-                  | OLogin => registered_for OLogin ps | ONewProxy => registered_for ONewProxy ps
-                  | OCloseProxy => registered_for OCloseProxy ps | OPing => registered_for OPing ps
-                  | ONewWorkConn => registered_for ONewWorkConn ps | ONewUserConn => registered_for ONewUserConn ps
-                  end);
-      assert (Hids : ids = registered_for o ps) by (destruct o; reflexivity);
-      rewrite <- Hids; clearbody ids; clear Hids;
-      pose proof (exec_loop_chain o script m Hb Efin ids
+    destruct (guard_ok_cases _ _ _ Hg) as [-> | ->]; rewrite ?HM;
+      generalize (registered_for o ps) as ids; intros ids;
+      pose proof (exec_loop_chain ops Hops o script m Hb Efin ids
                     {| ls_cur := c; ls_last := initial_res; ls_errs := false; ls_seen := [] |}) as Hloop;
       cbn [ls_cur ls_seen app] in Hloop.
     + rewrite Hloop. destruct (run_chain _ c). reflexivity.
@@ -444,9 +524,9 @@ Proof.
     apply body_eqb_eq in Hb.
     destruct (mi_final m) as [v| |w] eqn:Efin; try discriminate.
     assert (o = OCloseProxy) by (destruct o; cbn in Eg; congruence). subst o.
-    destruct (guard_ok_cases _ _ _ Hg) as [-> | ->]; rewrite ?mgr6_get;
+    destruct (guard_ok_cases _ _ _ Hg) as [-> | ->]; rewrite ?HM;
       generalize (registered_for OCloseProxy ps) as ids; intros ids;
-      pose proof (exec_loop_notify script m Hb Efin ids
+      pose proof (exec_loop_notify ops Hops script m Hb Efin ids
                     {| ls_cur := c; ls_last := initial_res; ls_errs := false; ls_seen := [] |}) as Hloop;
       cbn [ls_cur ls_seen ls_errs app orb] in Hloop; unfold run_notify.
     + rewrite Hloop. reflexivity.
